@@ -55,7 +55,11 @@ func specStr(s *EntSpec) string {
 	if len(name) > 40 {
 		name = fmt.Sprintf("%s…(%d bytes)", name[:10], len(name))
 	}
-	return fmt.Sprintf("{name:%q alias:%s roles:%q note:%q ref:%s sys:%v extra:%q tag:%s}", name, p(s.Alias), s.Roles, s.Note, p(s.Ref), s.IsSystem, s.Extra, p(s.TagV))
+	links := ""
+	if s.LinkField != "" {
+		links = fmt.Sprintf(" SetLinkedIds(%s, %q)", s.LinkField, s.LinkIDs)
+	}
+	return fmt.Sprintf("{name:%q alias:%s roles:%q note:%q ref:%s sys:%v extra:%q tag:%s%s}", name, p(s.Alias), s.Roles, s.Note, p(s.Ref), s.IsSystem, s.Extra, p(s.TagV), links)
 }
 
 // TxSpec is one transaction of a history.
